@@ -32,6 +32,8 @@ func alnum(s string) string {
 
 var c10zones = []*time.Location{time.UTC, time.FixedZone("ist", 5*3600+1800), time.FixedZone("pst", -8*3600), time.FixedZone("npt", 5*3600+2700), time.FixedZone("line", 14*3600)}
 
+var c10prevHookT = time.Unix(978_000_000, 0)
+
 type c10exp struct {
 	id       string
 	entry    string
@@ -100,6 +102,15 @@ func c10Worker(w *W) {
 					// hook times: consecutive calls share one Unix second but lie in different zones (per-request zones), so the
 					// record must show the hook's wall-clock reading, not a cached rendering of "the same second"
 					hookT := time.Unix(978_307_200+int64(seq/2)*86_461, int64(seq%1000)*1e6).In(c10zones[seq%len(c10zones)])
+					switch seq % 9 {
+					case 4: // the clock the hook reads was stepped back a little (NTP): the record shows what the hook returned
+						hookT = c10prevHookT.Add(-300 * time.Millisecond)
+					case 7:
+						hookT = c10prevHookT.Add(-7 * time.Millisecond)
+					case 8:
+						hookT = c10prevHookT // the very same instant twice
+					}
+					c10prevHookT = hookT
 					hookS := fmt.Sprintf("cs-%d", seq)
 					if seq%7 == 3 {
 						hookS = "" // a hook may legitimately return nothing; it still runs exactly once
